@@ -18,7 +18,7 @@ def check_history(ctx, cs):
     sh0, hist, exp, views = cs["sh0"], cs["hist"], cs["obj"], cs["views"]
     kind = KIND[len(sh0["deg"])]
     tg = [kind, "depth=%d" % len(hist), "last=" + hist[-1]["a"]] + sorted({"has_" + s["a"] for s in hist[:-1]})
-    small = {"kind": kind, "hist": [{k: v for k, v in s.items() if k in ("a", "k", "c", "v")} for s in hist]}
+    small = {"kind": kind, "hist": [{k: v for k, v in s.items() if k in ("a", "k", "c", "v", "i", "keep")} for s in hist]}
     ctx.count(c04.hist_key(cs), sample={"kind": kind, "hist": small["hist"], "weights": views["weights"]})
     site = "NURBS.%s.ctrlpts/weights/ctrlptsw" % kind.capitalize()
     expv = {"ctrlpts": pts(views["ctrlpts"]), "weights": [float(fr(w)) for w in views["weights"]], "ctrlptsw": pts(views["ctrlptsw"])}
@@ -34,6 +34,11 @@ def check_history(ctx, cs):
         if bad:
             ctx.violate(site, tg + ["definition"], small, {"field": bad})
             return
+        for inf in infos:
+            f = inf.get("fork")
+            if f and not (close_seq(f["weights"], f["expected_weights"]) and close_seq(f["ctrlpts"], f["expected_ctrlpts"])):
+                ctx.violate(site, tg + ["fork_other"], small, {"expected": f["expected_weights"][:3], "got": f["weights"][:3]})
+                return
         for v in order:
             try:
                 got = read_view(obj, v)
